@@ -356,6 +356,7 @@ OPTION_VARIANTS: Dict[str, List[str]] = {
     'sidebar-depth-1': ['--sidebar-expand-depth', '1'], 'sidebar-depth-3': ['--sidebar-expand-depth', '3'], 'toc-depth-0': ['--sidebar-toc-depth', '0'], 'no-sidebar': ['--no-sidebar'],
     'viewsource': ['--html-viewsource-base', 'http://example.org/src', '--project-base-dir', '.'], 'process-types': ['--process-types'], 'theme-classic': ['--theme', 'classic'],
     'theme-rtd': ['--theme', 'readthedocs'], 'summary-pages-only': ['--html-summary-pages'], 'warnings-as-errors': ['-W'], 'verbose': ['-vv'], 'project-url': ['--project-url', 'http://example.org/'],
+    'hidden-everything': ['--privacy', 'HIDDEN:**'], 'hidden-roots': ['--privacy', 'HIDDEN:pk', '--privacy', 'HIDDEN:other', '--privacy', 'HIDDEN:dup', '--privacy', 'HIDDEN:dupm'],
     'private-everything': ['--privacy', 'PRIVATE:**'], 'hidden-privates': ['--privacy', 'HIDDEN:**._*'], 'public-everything': ['--privacy', 'PUBLIC:**'],
 }
 
